@@ -50,6 +50,8 @@ func c08Variant(i, v int) string {
 		return fmt.Sprintf("---@class DupCls\n---@field n%d number\nlocal dup%d = {}\nreturn dup%d\n", i, i, i)
 	case 14: // the same one line further down: the other files' warnings keep type, range and message, only their related locations move
 		return fmt.Sprintf("\n---@class DupCls\n---@field n%d number\nlocal dup%d = {}\nreturn dup%d\n", i, i, i)
+	case 15: // requires the next file by its bare name (f2 also exists as alt/f2.lua: the name index has two candidates)
+		return fmt.Sprintf("local rq%d = require(\"f%d\")\nprint(rq%d)\n", i, other, i)
 	case 12: // the empty file
 		return ""
 	case 8: // a second clean text
@@ -132,9 +134,31 @@ func runC08(res *lib.Result, tier string, seed int64, args []string) error {
 			disk["f0.lua"], files["f0.lua"] = 0, c08Variant(0, 0)
 			disk["f1.lua"], files["f1.lua"] = 5, c08Variant(1, 5) // require("sub.f2")
 		}
-		if hi%8 == 2 {
+		k1Hist := hi%16 == 10 // the canonical history of the recorded finding K1 (runs in every tier)
+		if k1Hist {
+			// f0 uses the global f1 would define (undefined-variable warnings in its saved list), f1 is clean
+			disk["f0.lua"], files["f0.lua"] = 4, c08Variant(0, 4)
+			disk["f1.lua"], files["f1.lua"] = 0, c08Variant(1, 0)
+			disk["sub/f2.lua"], files["sub/f2.lua"] = 0, c08Variant(2, 0)
+		}
+		if hi%8 == 2 && !k1Hist {
 			// f0 defines gf0(a, b), sub/f2 calls it with three arguments; the script rewrites f0 to gf0(a): the
 			// caller's warning keeps its place and changes its message
+			disk["f0.lua"], files["f0.lua"] = 3, c08Variant(0, 3)
+			disk["f1.lua"], files["f1.lua"] = 0, c08Variant(1, 0)
+			disk["sub/f2.lua"], files["sub/f2.lua"] = 4, c08Variant(2, 4)
+		}
+		if hi%8 == 0 {
+			// two files named f2.lua (sub/f2.lua and alt/f2.lua), f1 requires "f2": the script deletes sub/f2.lua, the
+			// other candidate remains
+			disk["f0.lua"], files["f0.lua"] = 0, c08Variant(0, 0)
+			disk["f1.lua"], files["f1.lua"] = 15, c08Variant(1, 15)
+			disk["sub/f2.lua"], files["sub/f2.lua"] = 0, c08Variant(2, 0)
+			files["alt/f2.lua"] = "local alt = {}\nreturn alt\n"
+		}
+		if hi%8 == 4 {
+			// f0 defines the global sub/f2 uses; the script rewrites f0 on disk WHILE IT IS OPEN (a checkout, an external
+			// formatter), the client reloads the document and closes it
 			disk["f0.lua"], files["f0.lua"] = 3, c08Variant(0, 3)
 			disk["f1.lua"], files["f1.lua"] = 0, c08Variant(1, 0)
 			disk["sub/f2.lua"], files["sub/f2.lua"] = 4, c08Variant(2, 4)
@@ -251,11 +275,22 @@ func runC08(res *lib.Result, tier string, seed int64, args []string) error {
 			// a module required by its dotted path (sub.f2) is created while the requiring file shows "not found"
 			script = []scripted{{2, 9, 0}}
 		}
-		if hi%8 == 2 {
+		if hi%8 == 2 && !k1Hist {
 			script = []scripted{{0, 9, 9}}
+		}
+		if k1Hist {
+			// f0 gets an unsaved syntax error; f1 is edited to define the global and saved: the re-publish replaces what the
+			// client is shown for f0 (its saved list changed) although f0's buffer still has the syntax error
+			script = []scripted{{0, 0, 0}, {0, 2, 1}, {1, 0, 0}, {1, 2, 3}, {1, 5, 0}}
 		}
 		if hi%8 == 6 {
 			script = []scripted{{0, 9, 14}}
+		}
+		if hi%8 == 0 {
+			script = []scripted{{2, 9, -2}}
+		}
+		if hi%8 == 4 {
+			script = []scripted{{0, 0, 0}, {0, 10, 0}, {0, 2, 0}, {0, 7, 0}}
 		}
 		if hi%8 == 5 {
 			// a file that declares an annotation class is deleted while another file uses the class
@@ -272,7 +307,7 @@ func runC08(res *lib.Result, tier string, seed int64, args []string) error {
 			}
 			script = []scripted{{a, 0, 0}, {a, 2, []int{1, 6, 7}[r.Intn(3)]}, {a, 7, 0}, {b, 0, 0}, {b, 2, []int{0, 8}[r.Intn(2)]}, {b, 5, 0}}
 		}
-		if hi%8 == 5 || hi%8 == 1 || hi%8 == 2 || hi%8 == 6 {
+		if hi%8 == 5 || hi%8 == 1 || hi%8 == 2 || hi%8 == 6 || hi%8 == 0 || hi%8 == 4 {
 			nEv = r.Intn(2) // the comparison with a fresh server follows (almost) directly
 		} else if hi%3 == 1 {
 			nEv = 1 + r.Intn(4) // short histories: the state right after an event is compared with a fresh server
@@ -304,6 +339,23 @@ func runC08(res *lib.Result, tier string, seed int64, args []string) error {
 				}
 			}
 			switch {
+			case k == 10: // the file of an OPEN document is rewritten on disk and the watcher reports the change
+				if !open[n] || forceV < 0 {
+					continue
+				}
+				sawFileEvent = true
+				disk[n] = forceV
+				os.WriteFile(filepath.Join(dir, n), []byte(c08Variant(i, forceV)), 0o644)
+				if buffer[n] != forceV {
+					dirty[n] = true
+				}
+				history = append(history, fmt.Sprintf("rewrite %s on disk (variant %d) while it is open + didChangeWatchedFiles", n, forceV))
+				sess.Watched(map[string]int{n: 2})
+				sess.Sync()
+				{
+					saved, _ := langserver.VerifDiagMaps()
+					evs = append(evs, "W~"+n+"~"+encMap(saved))
+				}
 			case k <= 1: // open
 				if _, exists := disk[n]; !exists || open[n] {
 					continue
